@@ -37,13 +37,19 @@ var c18Alphabet = []string{
 type c18Case struct {
 	Lines []string `json:"doc_lines"` /* Text after the tag, one per TABDOC line. */
 	Class string   `json:"class"`
+	/* LongLine, if not 0, puts a line of that many bytes after the first
+	doc line (a one-line blob inside some function). */
+	LongLine int `json:"long_line,omitempty"`
 }
 
 func (c c18Case) payload() string {
 	var sb strings.Builder
 	sb.WriteString("f() { :; }\n")
-	for _, l := range c.Lines {
+	for i, l := range c.Lines {
 		sb.WriteString(shellfuncsfile.DocPrefix + l + "\n")
+		if 0 == i && 0 != c.LongLine {
+			sb.WriteString("blob='" + strings.Repeat("Q", c.LongLine) + "'\n")
+		}
 	}
 	sb.WriteString("# not a doc line\n")
 	return sb.String()
@@ -282,6 +288,13 @@ func c18(r *ev.Result, tier string) {
 		}
 	}
 	seqs(nil)
+	/* Payload shapes: very long lines between and inside doc lines. */
+	for _, n := range []int{4095, 4096, 65535, 65536, 65537, 200000, 1 << 20} {
+		cases = append(cases,
+			c18Case{Lines: []string{" first one", " second after the long line", " third x"}, Class: "long-line-between", LongLine: n},
+			c18Case{Lines: []string{" longdesc " + strings.Repeat("d", n), " zlast after"}, Class: "long-doc-line"},
+		)
+	}
 	r.Set("payloads", len(cases))
 
 	base := ev.Scratch("c18-")
